@@ -129,7 +129,8 @@ def secidxLoop (wantIndex : Bool) : Nat → Cfg → List (Nat × Nat) → Option
       else match getoptLeaf sec name with
         | some i => ⟨some ⟨steps, i⟩, -1, []⟩
         | none =>
-          ⟨none, -1, if !sec.flags.keystrval then [.noSuchOption] else []⟩
+          -- silent only when a free-form section is asked itself (`sec == cfg`: no step taken yet)
+          ⟨none, -1, if !(sec.flags.keystrval && steps.isEmpty) then [.noSuchOption] else []⟩
     if name.isEmpty then finish
     else
       let secname := name.takeWhile (fun c => !isSep c)
@@ -139,12 +140,14 @@ def secidxLoop (wantIndex : Bool) : Nat → Cfg → List (Nat × Nat) → Option
       else if len == 0 then finish
       else
         -- the do { } while(0) block
+        -- a free-form section asked itself for an option takes any name as a key, also a path-like one
+        let quiet : Bool := !wantIndex && steps.isEmpty && sec.flags.keystrval
         match pathOpt sec secname with
-        | none => ⟨none, -1, [.noSubSection]⟩
+        | none => ⟨none, -1, if quiet then [] else [.noSubSection]⟩
         | some (oi, o) =>
           let q := pathQual o after len
           match pathInst o q.1 with
-          | none => ⟨none, q.1, if !o.flags.multi then [.noSuchOption] else [.noSubSection]⟩
+          | none => ⟨none, q.1, if quiet then [] else if !o.flags.multi then [.noSuchOption] else [.noSubSection]⟩
           | some (ii, s) =>
             let name1 := name.drop q.2
             let seps := (name1.takeWhile (· == c_pipe)).length
